@@ -39,7 +39,7 @@ USER_FORMS = ["meanabs", "maxabs", "sumsq", "power"]
 
 
 def gen_cases(tier, seed):
-    n = 10 if tier == "quick" else 400
+    n = 20 if tier == "quick" else 1600
     return [{"kind": k, "i": i, "seed": seed} for i in range(n) for k in KINDS]
 
 
